@@ -198,18 +198,16 @@ func (w *world) hook(kind string, args []string) verifImpl {
 			c.onReceive = func(_ int, req *conformancev1.ClientCompatRequest) {
 				s := w.byPort[req.Port]
 				c.aliveAtReceipt[req.TestName] = s != nil && !s.exited && s.ctx != nil && s.ctx.Err() == nil
+				// a reference server reports feedback about a request when it receives
+				// the RPC, whether or not the client ever reports a result
+				if w.serverFeedback(req.TestName) {
+					w.emitServerFeedback(c, req.TestName)
+				}
 				if s != nil {
 					s.handed++
 					if s.sc.ExitAfterK >= 0 && s.handed >= s.sc.ExitAfterK {
 						s.trigger()
 					}
-				}
-			}
-			c.beforeAnswer = func(name string) {
-				// a reference server reports feedback about this request on its
-				// stderr before the client gets its response
-				if w.serverFeedback(name) {
-					w.emitServerFeedback(c, name)
 				}
 			}
 			return c.impl(ctx, a, in, out, errw)
@@ -351,7 +349,7 @@ func worldC05(w *world, cs *worldCase, selected map[string]*conformancev1.TestCa
 				if !sr.UseTls && len(req.ServerTlsCert) > 0 && !s.sc.WithCert {
 					viol("c05/certificate", "request %q carries a certificate although its server announced none", name)
 				}
-				if len(s.fired) == 0 && !c.aliveAtReceipt[name] {
+				if len(s.fired) == 0 && len(c.faultFired) == 0 && !c.aliveAtReceipt[name] {
 					viol("c05/server-not-alive", "request %q reached the client while its (fault-free) server was already stopped", name)
 				}
 				grpcServer := strings.Contains(name, grpcImplMarker) || strings.Contains(name, grpcServerImplMarker)
